@@ -117,7 +117,7 @@ func part2(r *ev.Run) {
 			os.MkdirAll(filepath.Dir(s.Dir), 0o700)
 			outFile := s.Dir + ".result.json"
 			js, _ := json.Marshal(s)
-			out, code, hung := ev.Child([]string{"VERIF_CHILD=c17server", "C17_SPEC=" + string(js), "C17_OUT=" + outFile}, 5*time.Minute)
+			out, code, hung := ev.Child([]string{"VERIF_CHILD=c17server", "C17_SPEC=" + string(js), "C17_OUT=" + outFile}, 150*time.Second)
 			o := outcome{spec: s, out: out, code: code, hung: hung}
 			if b, err := os.ReadFile(outFile); err == nil {
 				var cr childResult
